@@ -28,7 +28,7 @@ P = {
    text="Exploration: all interleavings (at lock-acquisition granularity) of all 2-worker x 1-op programs over 13 mutators x length 0..3 x LIFO/FIFO x 3 capacity modes, up to 200/400 interleavings of 1.5k / 60k sampled 2-3-worker programs, 1.5k / 40k free-running 3-7-goroutine histories, every history checked by porcupine against the sequential list model; 480 / 12k hammer runs (Pop/Push-back cyclers against Replace/Swap on a stack that holds at least two values in every sequential order: every call must succeed, length and unique content conserved); 338 duels (every ordered pair of the 13 mutators x LIFO/FIFO, 1.5k / 20k free-running trials each behind a spin barrier with a sweeping skew, each trial must end in one of the two sequential outcomes); race reports classified by address class, reading function and (for slot 0) writing function. The slice-header race of the unlocked prologue is a recorded known finding.", ref="2 C10",
    note="Trusted base: Go toolchain and race detector, porcupine v1.3.0, the verifPoint hook positions (immediately before Lock, after Lock, after Unlock), VerifDump, the cooperative scheduler and the sequential list model in the harness. Schedules are explored at lock-acquisition granularity only."),
  "C11": dict(tech="runtime monitor under the Go race detector: before/after VerifDump diff, answer stability and lock-freedom for every query; parallel readers with isolated-answer oracle; race-log parsing",
-   text="Exploration: 3k / 100k random trees (computed identifiers, pure policies) with every judged query - the listed ones, every Is/Can method and the plain getters, reflection-enumerated and name-classified - issued twice around an answer-clobbering step with the lock-point hook watching for lock acquisitions, and 120 / 2k trees queried by 8-16 goroutines under -race; any race report, lock acquisition, answer deviation or snapshot difference is a violation.", ref="2 C11",
+   text="Exploration: 3k / 60k random trees (computed identifiers, pure policies) with every judged query - the listed ones, every Is/Can method and the plain getters, reflection-enumerated and name-classified - issued twice around an answer-clobbering step with the lock-point hook watching for lock acquisitions, and 120 / 800 trees queried by 8-16 goroutines under -race; any race report, lock acquisition, answer deviation or snapshot difference is a violation.", ref="2 C11",
    note="Trusted base: Go toolchain and race detector (no false positives on pure Go, misses races that do not occur in the run), VerifDump, verifPoint, the name-based classification of methods into mutators/queries (an unclassified method makes the run inconclusive)."),
  "C12": dict(tech="runtime monitor: differential between an all-native tree and the same description with random alias forms, across String/Unmarshal/IsEqual/Traverse/IsNesting/Len/no-nesting/Transfer/Defrag/Convert*",
    text="Exploration: 60k / 3M description pairs with six alias forms (value/pointer; no String, delegating String, divergent String); every path of length <=3 traversed on both twins, every alias form found probed against no-nesting stacks and Conditions, Convert* checked for identity on convertible and (zero,false) on 18 non-convertible values; a third of the pairs carry per-node user closures and are compared against a native twin as baseline.", ref="2 C12"),
